@@ -231,10 +231,21 @@ const (
 	// dig.PanicError obtained from a helper container (what re-raising the error
 	// of a nested Invoke with panic(err) does). Logged as a panic.
 	BehPanicWrapsPanicErr
+	// BehErrZero: returns (zero values and) an error whose dynamic value is
+	// the zero value of a non-pointer type (ZeroErr{}, like a sentinel
+	// `type errX struct{}` or context.DeadlineExceeded): a failure all the
+	// same. It carries no identity; logged with Outcome BehErrZero.
+	BehErrZero
 )
 
+// ZeroErr is an error that is the zero value of a struct type.
+type ZeroErr struct{}
+
+func (ZeroErr) Error() string { return "zeroerr" }
+func (ZeroErr) Code() int     { return 0 }
+
 func (b Beh) String() string {
-	return [...]string{"ok", "err", "panic", "errvals", "panicdigerr", "panicwrapspanicerr"}[b]
+	return [...]string{"ok", "err", "panic", "errvals", "panicdigerr", "panicwrapspanicerr", "errzero"}[b]
 }
 
 var digPanicErr error
@@ -653,7 +664,7 @@ func (rt *Runtime) Body(f *Func, inst string, ft reflect.Type, args []reflect.Va
 		}
 		panic(&PanicErrVal{PanicVal: pv, Wrapped: w})
 	}
-	if (beh == BehErr || beh == BehErrVals) && !f.Err {
+	if (beh == BehErr || beh == BehErrVals || beh == BehErrZero) && !f.Err {
 		// a function without an error result cannot fail by error: it panics instead
 		pv := &PanicVal{Fn: inst, Exec: exec}
 		rt.Log = append(rt.Log, Event{Kind: EvExit, Fn: inst, Exec: exec, Outcome: BehPanic, Panic: pv, At: rt.Clock.Elapsed()})
@@ -692,7 +703,7 @@ func (rt *Runtime) Body(f *Func, inst string, ft reflect.Type, args []reflect.Va
 		default:
 			toks = append(toks, nil)
 			defer func() { slot++ }()
-			if beh == BehErr {
+			if beh == BehErr || beh == BehErrZero {
 				return reflect.Zero(t)
 			}
 			flatten, n := r.Flatten, r.N
@@ -729,6 +740,10 @@ func (rt *Runtime) Body(f *Func, inst string, ft reflect.Type, args []reflect.Va
 	if f.Err {
 		if beh == BehOK {
 			out = insertAt(out, f.errIndex(), reflect.Zero(f.errType()))
+		} else if beh == BehErrZero {
+			e := reflect.New(f.errType()).Elem()
+			e.Set(reflect.ValueOf(ZeroErr{}))
+			out = insertAt(out, f.errIndex(), e)
 		} else {
 			ue := &UserErr{Fn: inst, Exec: exec}
 			ev.Err = ue
